@@ -7,11 +7,13 @@
   predicates (`J → Bool`), arbitrary application registries, server states and mode strings.
 
   The third clause of the property (application clients observe the same with and without
-  instrumentation) is decided by translation validation: harness/props/c18.py runs the real
-  instrumented and plain servers side by side.  What the model can say about it is
-  `report_invisible` below.
+  instrumentation): `wrappers_transparent_partial` at the end of this file, over the model
+  `Instrumented.stepWith` (= `Server.step` on the instrumented registry, the admin handlers' API
+  calls, the wrappers' reports), tied to admin.py by harness/props/c18.py which runs the model
+  next to the real instrumented server (and the real instrumented next to the real plain server).
 -/
 import Sio.Lemmas.Admin
+import Sio.Lemmas.AdminTransparent
 namespace Sio.C18
 open Sio Sio.Admin Sio.Server
 open Sio.Rooms (Ns Sid Eio)
@@ -374,6 +376,117 @@ theorem report_invisible (s : Srv) (ev : Str) (d : Data) (adminNs : Ns) (to : Ro
     observeApp adminNs (emit s ev d adminNs to skip none).2 = [] :=
   Admin.report_invisible s ev d adminNs to skip
 
+
+/-! ### the instrumented server is transparent (model level)
+
+`Instrumented.stepWith dec c a mode ro rep` is one input on the instrumented server: `Server.step`
+on the configuration whose registry is `instrumentReg c.reg a mode ro`, then the API calls of the
+admin handlers `emit / join / leave / _disconnect` the step invoked, then the reports `rep` says
+the wrappers emit — each `Server.step … (.emit ev d a to [] none)`.  The theorems hold for EVERY
+reporting policy `rep` (so also for the one transcribed from admin.py, `reports`, whatever the
+abstract payloads are), every decoder, every application registry / script / server options.
+
+What is compared (`observeTrace`, `appState`), input by input: packets of namespaces other than
+`a` per transport in order, invocations of handlers of other namespaces with their arguments,
+callbacks, results of API calls and the exceptions they raise to the caller; and the state
+without the rooms and queued handlers of `a` (all callbacks, ack counters, sessions, environ,
+reassembly buffers).  Exceptions *contained* while a frame / a transport loss / a queued handler
+is processed are not observations of any client (`contained`).
+
+The reference run is the same configuration with the application's own registry, on the SAME
+history (admin frames included: the plain server refuses them), in which the id generator and
+the connect / event scripts skip what the admin CONNECTs consumed on the instrumented server
+(`Plain.traceSkip`, as C12's `runSkip`; with no skips it is literally `Server.run`,
+`traceSkip_zero`).
+
+Hypotheses (why `_partial`):
+ * `AppClear`, `a ≠ "*"`, `isServed c a = false`: the application has no handler on the admin
+   namespace, no catch-all namespace handlers, and does not serve `a` itself (for
+   `namespaces='*'` the plain server would accept admin clients as ordinary ones — excluded);
+ * `appInput`: the application's API calls do not address `a`; no blocking `call()` in the
+   history (its nested inputs cannot be given skips) — excluded;
+ * `Instrumented.quiet` (decidable, evaluated along the instrumented run): no step invokes one of
+   the four mutators — they act on the application by design; in read-only / production mode
+   none is registered (`read_only_registry`, `ro_resolve_no_mutator`) — and, when queued handlers
+   run (`async_handlers`), no queued *admin* EVENT has a handler: the only such event is one
+   literally named `connect` (it would run `admin_connect` as an event handler and thereby
+   consume an outcome of the application's event script between two application events; with
+   synchronous handlers it is covered).
+One transport connected both to application namespaces and to the admin namespace IS covered:
+nothing is assumed about which transport sends what. -/
+
+/-- **One input.**  From any well-formed state whose application part is well formed, one input on
+    the instrumented server and the same input on the plain server started in the application
+    part of that state: same application-side outputs, and the application parts of the
+    successor states agree up to the generators' positions. -/
+theorem step_transparent (dec : Str → Except Err (Packet × Nat)) (c : Cfg) {a : Ns} (mode : Str)
+    (ro : Bool) (rep : Srv → Input → List Out → List Report)
+    (hc : AppClear c.reg a) (ha : a ≠ star) (hserved : isServed c a = false)
+    {s : Srv} (h : Server.WF s) (h' : Server.WF (appPart a s)) (i : Input)
+    (hi : appInput a i = true)
+    (hq : Instrumented.quietStep c a mode ro s i
+      (Server.step dec (Instrumented.cfg c a mode ro) s i).2 = true) :
+    (∃ k, appPart a (Instrumented.stepWith dec c a mode ro rep s i).1 =
+      bumpBy k (Server.step dec c (appPart a s) i).1) ∧
+    appView a i (Instrumented.stepWith dec c a mode ro rep s i).2 =
+      appView a i (Server.step dec c (appPart a s) i).2 :=
+  stepWith_sim ha c hc hserved mode ro dec rep h (noAdminCb_of_wf h h') i hi hq
+
+/-- **Histories, whether or not an admin is connected.** -/
+theorem wrappers_transparent_partial (dec : Str → Except Err (Packet × Nat)) (c : Cfg) {a : Ns}
+    (mode : Str) (ro : Bool) (rep : Srv → Input → List Out → List Report)
+    (hc : AppClear c.reg a) (ha : a ≠ star) (hserved : isServed c a = false)
+    (hist : List Input) (happ : hist.all (appInput a) = true)
+    (hq : Instrumented.quiet dec c a mode ro rep {} hist = true) :
+    ∃ skips : List Skip, skips.length = hist.length ∧
+      observeTrace a (Instrumented.traceWith dec c a mode ro rep {} hist).2 =
+        observeTrace a (Plain.traceSkip dec c {} (skips.zip hist)).2 ∧
+      appState a (Instrumented.traceWith dec c a mode ro rep {} hist).1 =
+        appState a (Plain.traceSkip dec c {} (skips.zip hist)).1 :=
+  trace_sim ha c hc hserved mode ro dec rep hist {} {} {} Server.WF.init Server.WF.init rfl
+    (fun i hi => List.all_eq_true.mp happ i hi) hq
+
+/-- … in particular for the wrappers of admin.py (`reports`), whatever timestamps, serialised
+    sockets and statistics they carry, and for the outputs of the whole run in one list. -/
+theorem wrappers_transparent_partial_run (dec : Str → Except Err (Packet × Nat)) (c : Cfg) {a : Ns}
+    (mode : Str) (ro : Bool) (P : Payloads)
+    (hc : AppClear c.reg a) (ha : a ≠ star) (hserved : isServed c a = false)
+    (hist : List Input) (happ : hist.all (appInput a) = true)
+    (hq : Instrumented.quiet dec c a mode ro
+      (reports dec (Instrumented.cfg c a mode ro) a mode P) {} hist = true) :
+    ∃ skips : List Skip, skips.length = hist.length ∧
+      (observeTrace a (Instrumented.trace dec c a mode ro P {} hist).2).flatMap (·.2) =
+        (observeTrace a (Plain.traceSkip dec c {} (skips.zip hist)).2).flatMap (·.2) ∧
+      appState a (Instrumented.run dec c a mode ro P {} hist).1 =
+        appState a (Plain.runSkip dec c {} (skips.zip hist)).1 := by
+  obtain ⟨skips, hl, h1, h2⟩ := wrappers_transparent_partial dec c mode ro
+    (reports dec (Instrumented.cfg c a mode ro) a mode P) hc ha hserved hist happ hq
+  exact ⟨skips, hl, congrArg (fun l => l.flatMap (·.2)) h1, h2⟩
+
+/-- without skips the reference run is the server model's `run` -/
+theorem traceSkip_zero (dec : Str → Except Err (Packet × Nat)) (c : Cfg) (s : Srv) (hist : List Input) :
+    Plain.runSkip dec c s (hist.map (fun i => (({} : Skip), i))) = Server.run dec c s hist := by
+  induction hist generalizing s with
+  | nil => rw [run_nil]; rfl
+  | cons i is ih =>
+    have := ih (Server.step dec c s i).1
+    simp only [Plain.runSkip] at this ⊢
+    rw [run_cons, List.map_cons, Plain.traceSkip]
+    simp only [List.flatMap_cons]
+    rw [← this]
+    rfl
+
+/-- In read-only / non-development mode no event resolves to one of the four mutators, on any
+    namespace, whatever its name and arguments (so the first half of `quiet` holds by
+    construction there). -/
+theorem ro_resolve_no_mutator {app : Registry} {a : Ns} {mode : Str} {ro : Bool}
+    (hro : ro = true ∨ isDev mode = false) (hc : AppClear app a) (ha : a ≠ star)
+    {ns : Ns} {ev : J} {args : List J} {r : Resolved}
+    (h : resolve (instrumentReg app a mode ro) ns ev args = .ok r) :
+    ∀ slot args', (r = .fn slot args' ∨ r = .clsCall slot args') →
+      mutatorCalled a (.invoke slot args') = false :=
+  Admin.ro_resolve_no_mutator hro hc ha h
+
 /-! ### non-vacuity: one concrete instrumented server -/
 
 def exApp : Registry :=
@@ -429,5 +542,80 @@ example : resolve (instrumentReg exApp exAdminNs "development".toList false) exA
     (.str "_disconnect".toList) [.str "a0".toList] =
     .ok (.fn (.fn exAdminNs "_disconnect".toList) [.str "a0".toList]) :=
   writable_resolve exApp (adminNs := exAdminNs) (by decide) (by decide) (by decide) _
+
+/-! ### non-vacuity of `wrappers_transparent_partial` -/
+
+/-- toy decoder: `c` CONNECT to `/`, `a` CONNECT to `/admin`, `e` EVENT `msg` on `/` (ack id 1),
+    `x` EVENT `_disconnect` on `/admin`, `q` EVENT `connect` on `/admin`, `d` DISCONNECT `/admin` -/
+def exDec : Str → Except Err (Packet × Nat)
+  | ['c'] => .ok (⟨CONNECT, none, none, none⟩, 0)
+  | ['a'] => .ok (⟨CONNECT, some exAdminNs, none, none⟩, 0)
+  | ['e'] => .ok (⟨EVENT, none, some 1, some (.arr [.str "msg".toList, .int 1])⟩, 0)
+  | ['x'] => .ok (⟨EVENT, some exAdminNs, none,
+      some (.arr [.str "_disconnect".toList, .str ['/'], .bool false])⟩, 0)
+  | ['q'] => .ok (⟨EVENT, some exAdminNs, none, some (.arr [.str "connect".toList])⟩, 0)
+  | ['d'] => .ok (⟨DISCONNECT, some exAdminNs, none, none⟩, 0)
+  | _ => .error .valueError
+
+/-- the application's own configuration: one handler `msg` on `/`, only `/` served -/
+def exPlain : Cfg :=
+  { alwaysConnect := false, served := some [['/']], asyncHandlers := false, reg := exApp,
+    script := ⟨fun _ => .accept, fun n => .ret (.one (.int n)), fun _ => .ok⟩ }
+
+def exPayloads : Payloads :=
+  { stamp := .str "t".toList, socket := fun sid ns => .arr [.str sid, .str ns], features := .null,
+    stats := fun _ i => match i with | .settle => some .null | _ => none }
+
+/-- one admin (transport `A`, which is ALSO an application client on `/`), two application-only
+    clients `T1`, `T2`; the admin sends a mutator request (read-only: nobody's) and an event
+    named `connect`, leaves and the others go on -/
+def exHist : List Input :=
+  [.eioConnect ['A'], .eioConnect ['1'], .eioConnect ['2'],
+   .frame ['A'] (.str ['a']), .frame ['1'] (.str ['c']), .frame ['2'] (.str ['c']),
+   .frame ['A'] (.str ['c']),
+   .frame ['1'] (.str ['e']), .emit "news".toList (.one (.int 7)) ['/'] .all [] (some 3),
+   .frame ['A'] (.str ['x']), .frame ['A'] (.str ['q']),
+   .enterRoom (sidName 1) ['/'] ['r'], .frame ['A'] (.str ['d']), .frame ['2'] (.str ['e']),
+   .settle, .eioLost ['A'] "transport close".toList, .frame ['2'] (.str ['e'])]
+
+def exRep := reports exDec (Instrumented.cfg exPlain exAdminNs "development".toList true) exAdminNs
+  "development".toList exPayloads
+
+/-- the hypotheses of `wrappers_transparent_partial` hold of this history … -/
+example : AppClear exPlain.reg exAdminNs ∧ exAdminNs ≠ star ∧ isServed exPlain exAdminNs = false ∧
+    exHist.all (appInput exAdminNs) = true ∧
+    Instrumented.quiet exDec exPlain exAdminNs "development".toList true exRep {} exHist = true :=
+  ⟨exApp_clear, by decide, by decide, by decide, by decide⟩
+
+
+/-- … and its conclusion is about something: 32 outputs on the instrumented server, 12 of them
+    visible on the application side (CONNECT ×3, `msg` handler ×3 with its ACKs, the `news` EVENT
+    to three clients) — the same 12 the plain server produces when its generators skip the
+    session id and the `admin_connect` outcome the admin CONNECT consumed, and the outcome the
+    admin's event named `connect` consumed. -/
+def exSkips : List Skip :=
+  [{}, {}, {}, {}, ⟨1, 1, 0⟩, {}, {}, {}, {}, {}, {}, ⟨0, 0, 1⟩, {}, {}, {}, {}, {}]
+
+/-- an output, rendered (only to compare two concrete runs by `decide`) -/
+def exKey : Out → Str × Nat × Str × Option Nat × Str
+  | .send t p => (t, p.type, p.nsp.getD [], p.id, (p.data.map J.dumps).getD [])
+  | .invoke slot args => (slotNs slot, 100, [], none, J.dumps (.arr args))
+  | .callback n args => ([], 101, [], some n, J.dumps (.arr args))
+  | .raised _ => ([], 102, [], none, [])
+  | .result j => ([], 103, [], none, J.dumps j)
+  | .timeout => ([], 104, [], none, [])
+
+example :
+    let tr := Instrumented.trace exDec exPlain exAdminNs "development".toList true exPayloads {} exHist
+    let pl := Plain.traceSkip exDec exPlain {} (exSkips.zip exHist)
+    (tr.2.flatMap (·.2)).length = 32 ∧
+    ((observeTrace exAdminNs tr.2).flatMap (·.2)).length = 12 ∧
+    ((observeTrace exAdminNs tr.2).flatMap (·.2)).map exKey =
+      ((observeTrace exAdminNs pl.2).flatMap (·.2)).map exKey ∧
+    (appState exAdminNs tr.1).rooms = (appState exAdminNs pl.1).rooms ∧
+    (appState exAdminNs tr.1).rooms.length = 5 ∧
+    (appState exAdminNs tr.1).cbs = (appState exAdminNs pl.1).cbs ∧
+    (appState exAdminNs tr.1).cbs.length = 2 := by
+  decide
 
 end Sio.C18
